@@ -530,4 +530,37 @@ theorem commitRun_lockOps (fixed : Bool) (limit : Nat) (pre : List (Hash × Nat)
             simp only at hw
             cases okw <;> simp [lockOps_append, hw, hn, hp, lockOps]
 
+/-! ### the block cache: populated only by reads (and never before a flush), it stays coherent -/
+
+/-- the steps the code as written performs on (cache, store) during imports, Stop and failed writes: reads, writes that
+    keep every stored block (no import/Stop event removes one), failed writes -/
+def CodeStep (db : Db) : CacheStep → Prop
+  | .read _ _ => True
+  | .wrote e => ∀ h n hd, getBlock db h n = some hd → getBlock (apply db e) h n = some hd
+  | .failed _ => True
+  | .addUnflushed _ _ => False
+
+theorem coherent_cstep {c : BlockCache} {db : Db} (hc : Coherent c db) (st : CacheStep) (hs : CodeStep db st) :
+    Coherent (cstep (c, db) st).1 (cstep (c, db) st).2 := by
+  cases st with
+  | read h n =>
+    simp only [cstep]
+    split
+    · exact hc
+    · split
+      · rename_i hd hb
+        intro h' hd' hg
+        simp only [cacheGet] at hg
+        split at hg
+        · rename_i e
+          injection hg with hg; subst hg; subst e
+          rw [getBlock_num hb]; exact hb
+        · exact hc h' hd' hg
+      · exact hc
+  | wrote e =>
+    intro h hd hg
+    exact hs h hd.num hd (hc h hd hg)
+  | failed e => exact hc
+  | addUnflushed h hd => exact hs.elim
+
 end Aqv.ChainDb
